@@ -16,11 +16,11 @@ def build_sysx():
     return out
 
 
-def build_h_one(variant='c03-ts-asan', san='asan'):
+def build_h_one(variant='c03-ts-asan', san='asan', heaptrack=False):
     v = build.build_variant(variant, san=san)
     rec = build.build_shared('librec.so', [os.path.join(NATIVE, 'rec.c')])
-    v['h_one'] = build.link_harness(v, os.path.join(v['dir'], 'h_one'), [os.path.join(NATIVE, 'h_one.c'), os.path.join(NATIVE, 'seam.c')],
-                                    extra_ld=['-L' + os.path.dirname(rec), '-lrec', '-Wl,-rpath,' + os.path.dirname(rec)])
+    v['h_one'] = build.link_harness(v, os.path.join(v['dir'], 'h_one'), [os.path.join(NATIVE, 'h_one.c'), os.path.join(NATIVE, 'seam.c')], extra_cflags=(['-DVERIF_HEAPTRACK'] if heaptrack else []),
+                                    extra_ld=['-L' + os.path.dirname(rec), '-lrec', '-Wl,-rpath,' + os.path.dirname(rec)] + (['-Wl,--wrap=malloc,--wrap=calloc,--wrap=realloc,--wrap=free,--wrap=strdup,--wrap=strndup,--wrap=getline'] if heaptrack else []))
     return v
 
 
